@@ -140,6 +140,12 @@ def omen_models(draw, max_ngram=3, alpha_max=3):
 
 
 @st.composite
+def file_styles(draw):
+    return {'eol': draw(st.sampled_from(['lf', 'crlf', 'crlf'])), 'final_newline': draw(st.booleans()),
+            'scope': draw(st.sampled_from(['all', 'all', 'omen', 'pcfg']))}
+
+
+@st.composite
 def rulesets(draw, max_pt=600, markov='maybe', prince=False, max_structs=4, normalised=False,
              tied_levels=False, families=None, rich_levels=False):
     """A synthetic well-formed ruleset model (see rsmodel)."""
@@ -235,6 +241,9 @@ def rulesets(draw, max_pt=600, markov='maybe', prince=False, max_structs=4, norm
         m['keyspace'] = [[l, 1] for l in sorted(lvls)]
     else:
         m['m_levels'] = []
+    if draw(st.integers(0, 3)) == 0:
+        # the files as a hand edit or a line-end converting tool leaves them (the shipped Default ruleset has CRLF files too)
+        m['file_style'] = draw(file_styles())
     if prince:
         pn = draw(st.lists(st.sampled_from(names), min_size=1, max_size=len(names), unique=True))
         pps = sorted([draw(probs(None if family == 'mixed' else family)) for _ in pn], reverse=True)
@@ -245,6 +254,9 @@ def rulesets(draw, max_pt=600, markov='maybe', prince=False, max_structs=4, norm
 def describe(m):
     """Class labels of a ruleset model, for the evidence histogram."""
     out = []
+    fs = m.get('file_style')
+    if fs:
+        out.append('files_' + fs.get('eol', 'lf') + ('' if fs.get('final_newline', True) else '_no_final_newline'))
     toks = [rsmodel.tokens(s) for s, _ in m['base']]
     if any(len(t) != len(set(t)) for t in toks):
         out.append('repeated_type')
